@@ -540,6 +540,18 @@ fn trunc(s: &str) -> String {
 #[allow(dead_code)]
 fn _unused(_: StrDoc<SupportLang>) {}
 
+fn stage_opts() -> SrcOpts {
+  let opts = SrcOpts::all_langs().with_errors();
+  opts
+}
+
+/// the same stage, driven by bytes (coverage-guided tier)
+pub fn erased() -> crate::fuzz::Erased {
+  let corpus: &'static Corpus = Box::leak(Box::new(Corpus::load()));
+  let opts: &'static SrcOpts = Box::leak(Box::new(stage_opts()));
+  crate::fuzz::Erased::generic("C10", "histories", move || strategy(opts), move |c, st| interpret(corpus, opts, c, st), check)
+}
+
 pub fn run(cfg: &RunCfg) -> i32 {
   let mut report = Report::new(
     cfg,
@@ -553,7 +565,7 @@ pub fn run(cfg: &RunCfg) -> i32 {
     return crate::replay_main::<Case>(cfg, path, check);
   }
   crate::replay_known::<Case>(&mut report, &known, check);
-  let opts = SrcOpts::all_langs().with_errors();
+  let opts = stage_opts();
   let total = cfg.budget(8_000, 300_000);
   let o = drive(
     cfg,
@@ -566,5 +578,6 @@ pub fn run(cfg: &RunCfg) -> i32 {
   );
   report.absorb("histories", o);
   report.floor("nontrivial", 0.20, "evaluations");
+  crate::fuzz::stage(cfg, &mut report, &known, 15000);
   report.finish()
 }
